@@ -1638,7 +1638,7 @@ def run_case(ctx, it, seed):
 
 
 def make_cases(ctx):
-    seeds = ctx.pick(9, 260)
+    seeds = ctx.pick(9, 200)
     for s in range(seeds):
         for it in ITEMS:
             n = s
